@@ -93,8 +93,8 @@ class DyadCarrier(object):
         Returns:
             self
         """
-        ulist = _parse_to_list(u)
-        vlist = ulist if v is None else _parse_to_list(v)
+        ulist = list(_parse_to_list(u))  # Copy of the lists, as they may be the carrier's own (D += D)
+        vlist = ulist if v is None else list(_parse_to_list(v))
 
         if len(ulist) != len(vlist):
             raise TypeError("Number of vectors in u ({}) and v({}) should be equal".format(len(ulist), len(vlist)))
